@@ -72,6 +72,7 @@ NOPANIC = {
     "rand_chacha::rand_core::SeedableRng::seed_from_u64": "PRNG seeding, wrapping arithmetic",
     "<std::str::Chars<'a> as std::iter::Iterator>::next": "returns Option",
     "<std::string::String as std::ops::Deref>::deref": "borrow",
+    "<std::vec::Vec<T, A> as std::ops::Deref>::deref": "borrow (pointer and length)",
     "<std::vec::IntoIter<T, A> as std::iter::Iterator>::next": "returns Option",
     "<std::vec::Vec<T, A> as std::iter::IntoIterator>::into_iter": "move",
     "core::str::<impl str>::chars": "iterator constructor",
@@ -123,8 +124,11 @@ NOPANIC = {
     "<std::option::Option<T> as std::ops::FromResidual<std::option::Option<std::convert::Infallible>>>::from_residual": "`?` early return: builds None",
 }
 # `str` searches are total for a char or string pattern (a closure pattern runs user code)
-PATTERN_FNS = ("core::str::<impl str>::contains", "core::str::<impl str>::starts_with")
+PATTERN_FNS = ("core::str::<impl str>::contains", "core::str::<impl str>::starts_with",
+               "core::str::<impl str>::strip_suffix", "core::str::<impl str>::strip_prefix")
 PATTERN_TYS = ("char", "&str", "&&str", "&std::string::String")
+ENUMERATE_FNS = ("std::iter::Iterator::enumerate", "<std::iter::Enumerate<I> as std::iter::Iterator>::next")
+IN_MEMORY_ITERS = ("std::slice::Iter<", "std::slice::IterMut<", "std::vec::IntoIter<", "std::str::Chars<", "std::str::Split<", "std::array::IntoIter<")
 RESULT_RESIDUAL = "<std::result::Result<T, F> as std::ops::FromResidual<std::result::Result<std::convert::Infallible, E>>>::from_residual"
 
 
@@ -154,7 +158,14 @@ def _conditional_nopanic(c, t):
     if c in PATTERN_FNS:
         tys = t.get("arg_tys") or []
         if len(tys) == 2 and tys[1] in PATTERN_TYS:
-            return "pattern search with a %s pattern, returns bool" % tys[1]
+            return "pattern search with a %s pattern, returns bool / Option (cuts at a match boundary)" % tys[1]
+        return None
+    if c in ENUMERATE_FNS:
+        # `enumerate()` counts with `+= 1`, which can only overflow after usize::MAX items: impossible
+        # for an iterator over memory (slice, Vec, chars, split), whose length is at most isize::MAX
+        full = t.get("callee_full") or ""
+        if any(m in full for m in IN_MEMORY_ITERS):
+            return "enumerating an in-memory sequence: the counter stays below its length"
         return None
     if c == RESULT_RESIDUAL:
         # `?` early return: Err(e) => Err(From::from(e)).  With the same error type on both sides the
@@ -658,15 +669,38 @@ def r15_4(ctx):
                 out.append((loc, ex.rvalue(b.stmts(loc[0])[loc[1]]["rv"], loc)))
         return out
     rdefs, cdefs = defs_of(row), defs_of(col)
+    def enum_counter(e):
+        """e is the running index of an enumerated in-memory iteration (`for (i, x) in v.iter().enumerate()`):
+        it starts at 0 and grows by one per iteration by the definition of `enumerate`."""
+        e = strip_refs(e)
+        if e[0] == "var":
+            ds = [ex.rvalue(b.stmts(loc[0])[loc[1]]["rv"], loc) for loc, k in rd.all_sites(e[1]) if k == "whole" and loc[1] < len(b.stmts(loc[0]))]
+            if len(ds) != 1 or len(rd.all_sites(e[1])) != 1:
+                return False
+            e = strip_refs(ds[0])
+        return (e[0] == "field" and e[2] == "0" and e[1][0] == "field" and e[1][2] == "0" and e[1][1][0] == "downcast" and e[1][1][2] == "Some"
+                and strip_refs(e[1][1][1])[0] == "call" and strip_refs(e[1][1][1])[1].endswith("<std::iter::Enumerate<I> as std::iter::Iterator>::next"))
+
+    def offset_of_counter(e):
+        """c if e == c + <enumerate counter> (either operand order), else None"""
+        if e[0] == "bin" and e[1] == "Add":
+            for x, k in ((e[2], e[3]), (e[3], e[2])):
+                if k[0] == "const" and isinstance(k[1], int) and enum_counter(x):
+                    return k[1]
+        return None
     rinit = [e for _, e in rdefs if e[0] == "const"]
     cinit = [e for _, e in cdefs if e[0] == "const"]
-    rinc = [e for _, e in rdefs if e[0] == "bin"]
+    renum = [offset_of_counter(e) for _, e in rdefs if offset_of_counter(e) is not None]      # row = 2 + rank_index
+    rinc = [e for _, e in rdefs if e[0] == "bin" and offset_of_counter(e) is None]
     cinc = [e for _, e in cdefs if e[0] == "bin"]
-    ok = {e[1] for e in rinit} == {2} and {e[1] for e in cinit} == {2}
-    ctx.ob("from_fen:cursor-starts-at-a8", ok, b.file, "row starts at %s, column starts/resets at %s (2,2 is a8)" % (sorted(e[1] for e in rinit), sorted(e[1] for e in cinit)))
+    row_start = sorted(e[1] for e in rinit) + renum
+    ok = set(row_start) == {2} and not (rinit and renum) and {e[1] for e in cinit} == {2}
+    ctx.ob("from_fen:cursor-starts-at-a8", ok, b.file, "row starts at %s, column starts/resets at %s (2,2 is a8)" % (row_start, sorted(e[1] for e in cinit)))
     inc1 = lambda es, l: all(e[1] == "Add" and e[3] == ("const", 1) and e[2][0] == "var" and e[2][1] == l for e in es) and bool(es)
-    ctx.ob("from_fen:cursor-steps", inc1(rinc, row) and inc1(cinc, col) and len(rinc) == 1 and len(cinc) == 2, b.file,
-           "row advances by one per FEN row (%d sites), column by one per square or skipped square (%d sites)" % (len(rinc), len(cinc)))
+    # the row advances once per FEN row: one `row += 1`, or it is `2 + i` for the index i of the FEN row
+    row_steps = (inc1(rinc, row) and len(rinc) == 1 and not renum) or (len(renum) == 1 and not rinc)
+    ctx.ob("from_fen:cursor-steps", row_steps and inc1(cinc, col) and len(cinc) == 2, b.file,
+           "row advances by one per FEN row (%d sites), column by one per square or skipped square (%d sites)" % (len(rinc) + len(renum), len(cinc)))
     # row-complete check: an Err return under Ne(col, 10) after the inner loop
     complete = False
     for s in b.normal:
